@@ -5,6 +5,7 @@ import (
 	"go/token"
 	"go/types"
 	"sort"
+	"strconv"
 	"strings"
 
 	"golang.org/x/tools/go/ssa"
@@ -22,6 +23,7 @@ func checkC07(w *World, r *Report) {
 	r.Assumptions = []string{"the matcher trusts childKeys order (binary search above 50 children) and the two index fields"}
 	checkNodeConstruction(w, r, "C07.1")
 	checkC07MergeGuards(w, r)
+	checkC07MergeShape(w, r)
 	p := newProto(w)
 	checkC04PublicationAs(w, r, p, w.Method("Txn", "Commit"), "C07.3")
 	o := newOwn(w)
@@ -154,7 +156,23 @@ func checkNodeConstruction(w *World, r *Report, id string) {
 	ru.Check("newNode sorts first", w.Pos(newNode.Pos()), "the child list is sorted by key before childKeys and the indexes are derived and before the node is built", okSort, fmt.Sprintf("sort=%v ctor=%v", sortCall != nil, ctor != nil))
 	// comparator: cmp.Compare(a.key, b.key)
 	okCmp := false
-	for _, an := range newNode.AnonFuncs {
+	var cmpFns []*ssa.Function
+	if sortCall != nil && len(sortCall.Common().Args) == 2 {
+		// the comparator handed to the sort: a closure or a named function
+		switch x := sortCall.Common().Args[1].(type) {
+		case *ssa.MakeClosure:
+			cmpFns = append(cmpFns, x.Fn.(*ssa.Function))
+		case *ssa.Function:
+			cmpFns = append(cmpFns, x)
+		}
+	}
+	if len(cmpFns) == 0 {
+		cmpFns = newNode.AnonFuncs
+	}
+	for _, an := range cmpFns {
+		if len(an.Params) < 2 {
+			continue
+		}
 		eachInstr(an, func(in ssa.Instruction) {
 			if c, ok := in.(*ssa.Call); ok && calleeObj(c) != nil && calleeObj(c).Name() == "Compare" {
 				_, f1, ok1 := loadedField(c.Call.Args[0])
@@ -395,6 +413,16 @@ func checkC07MergeGuards(w *World, r *Report) {
 			got = append(got, k)
 		}
 		sort.Strings(got)
+		unknownGuard := false
+		for _, g := range got {
+			if strings.HasPrefix(g, "other:") {
+				unknownGuard = true
+			}
+		}
+		if unknownGuard {
+			r.Unrecognised("C07.2: merge at %s is guarded by a condition the rule does not know (%s)", w.Pos(c.Pos()), strings.Join(got, " && "))
+			continue
+		}
 		matched := ""
 		for name, ws := range want {
 			w2 := append([]string(nil), ws...)
@@ -411,4 +439,200 @@ func checkC07MergeGuards(w *World, r *Report) {
 			ru.Fail("merge case "+name, w.Pos(remove.Pos()), "the merge case exists", "no merge site is guarded by this set")
 		}
 	}
+}
+
+// sliceElems returns the values stored into the backing array of a variadic argument slice (nil when v is not of
+// that form).
+func sliceElems(v ssa.Value) []ssa.Value {
+	sl, ok := v.(*ssa.Slice)
+	if !ok {
+		return nil
+	}
+	arr, ok := sl.X.(*ssa.Alloc)
+	if !ok || arr.Referrers() == nil {
+		return nil
+	}
+	out := map[int64]ssa.Value{}
+	for _, ref := range *arr.Referrers() {
+		ia, ok := ref.(*ssa.IndexAddr)
+		if !ok || ia.Referrers() == nil {
+			continue
+		}
+		k, ok := constInt(ia.Index)
+		if !ok {
+			return nil
+		}
+		for _, r2 := range *ia.Referrers() {
+			if st, ok := r2.(*ssa.Store); ok && st.Addr == ssa.Value(ia) {
+				out[k] = st.Val
+			}
+		}
+	}
+	res := make([]ssa.Value, len(out))
+	for k, v := range out {
+		if int(k) >= len(res) {
+			return nil
+		}
+		res[k] = v
+	}
+	return res
+}
+
+// checkC07MergeShape: what a merge builds. Folding node U into its single remaining edge L must give the node a
+// fresh insertion of L's route would have produced: key U.key+L.key (in that order), route and child tables of L, and
+// L must be the first edge of U's own edge list (its children, or the edges recreated for U).
+func checkC07MergeShape(w *World, r *Report) {
+	ru := r.Rule("C07.5", "merge shape: every node built by a merge in tXn.remove has the key upper.key + lower.key in that order, carries the route and the child tables of the lower node, and the lower node is edge 0 of the upper node's own (remaining) edge list", 3)
+	remove := w.Method("tXn", "remove")
+	fromRef := w.Func("newNodeFromRef")
+	recreate := w.Func("recreateParentEdge")
+	keyOwner := func(v ssa.Value) (ssa.Value, bool) {
+		b, f, ok := loadedField(stripIface(v))
+		if ok && f.Name() == "key" {
+			return b, true
+		}
+		return nil, false
+	}
+	var fns []*ssa.Function
+	for _, fn := range w.FoxFuncs() {
+		fns = append(fns, fn)
+	}
+	n := 0
+	for _, fn := range fns {
+		if fn != remove {
+			// merge helpers extracted from remove are analysed where the constructor call is
+			calledFromRemove := false
+			eachInstr(remove, func(in ssa.Instruction) {
+				if c, ok := in.(*ssa.Call); ok && c.Call.StaticCallee() == fn {
+					calledFromRemove = true
+				}
+			})
+			if !calledFromRemove {
+				continue
+			}
+		}
+		eachInstr(fn, func(in ssa.Instruction) {
+			c, ok := in.(*ssa.Call)
+			if !ok || c.Call.StaticCallee() != fromRef || len(c.Call.Args) < 6 {
+				return
+			}
+			// the key: fmt.Sprintf("%s%s", a, b) or a + b
+			var a, b ssa.Value
+			switch k := c.Call.Args[0].(type) {
+			case *ssa.Call:
+				if !isFuncNamed(calleeObj(k), "fmt", "Sprintf") {
+					return
+				}
+				format, _ := constString(k.Call.Args[0])
+				el := sliceElems(k.Call.Args[1])
+				if format != "%s%s" || len(el) != 2 {
+					ru.Fail("merge in "+FuncName(fn), w.Pos(c.Pos()), "key is the concatenation of two node keys", "format "+strconv.Quote(format)+" with "+strconv.Itoa(len(el))+" operands")
+					n++
+					return
+				}
+				a, b = el[0], el[1]
+			case *ssa.BinOp:
+				if k.Op != token.ADD {
+					return
+				}
+				a, b = k.X, k.Y
+			default:
+				return
+			}
+			// lower = upper.children[0] or edges(upper)[0]
+			edgeZero := func(upper, lower ssa.Value) bool {
+				u, ok := lower.(*ssa.UnOp)
+				if !ok {
+					return false
+				}
+				ia, ok := u.X.(*ssa.IndexAddr)
+				if !ok {
+					return false
+				}
+				if z, ok := constInt(ia.Index); !ok || z != 0 {
+					return false
+				}
+				var srcs []ssa.Value
+				var expand func(v ssa.Value, d int)
+				expand = func(v ssa.Value, d int) {
+					if ph, ok := v.(*ssa.Phi); ok && d < 4 {
+						for _, e := range ph.Edges {
+							expand(e, d+1)
+						}
+						return
+					}
+					srcs = append(srcs, v)
+				}
+				expand(ia.X, 0)
+				for _, src := range srcs {
+					if bb, f, ok := loadedField(src); ok && f.Name() == "children" && sameExpr(seeThrough(bb), seeThrough(upper)) {
+						return true
+					}
+					if rc, ok := src.(*ssa.Call); ok && rc.Call.StaticCallee() == recreate && sameExpr(seeThrough(rc.Call.Args[0]), seeThrough(upper)) {
+						return true
+					}
+				}
+				return false
+			}
+			// a merge helper is judged with the arguments of each of its calls in remove substituted for its parameters
+			type useSite struct {
+				call *ssa.Call
+				name string
+				pos  string
+			}
+			var uses []useSite
+			if fn == remove {
+				uses = []useSite{{nil, "merge in " + FuncName(fn), w.Pos(c.Pos())}}
+			} else {
+				eachInstr(remove, func(in2 ssa.Instruction) {
+					if c2, ok := in2.(*ssa.Call); ok && c2.Call.StaticCallee() == fn {
+						uses = append(uses, useSite{c2, "merge through " + FuncName(fn) + " in (*tXn).remove", w.Pos(c2.Pos())})
+					}
+				})
+			}
+			for _, u := range uses {
+				subst := func(v ssa.Value) ssa.Value {
+					if u.call == nil {
+						return v
+					}
+					if p, ok := seeThrough(stripIface(v)).(*ssa.Parameter); ok && p.Parent() == fn {
+						if i := paramIndex(fn, p); i >= 0 && i < len(u.call.Call.Args) {
+							return u.call.Call.Args[i]
+						}
+					}
+					return v
+				}
+				upper, ok1 := keyOwner(subst(a))
+				lower, ok2 := keyOwner(subst(b))
+				if !ok1 || !ok2 {
+					continue // not a merge (a split or a plain copy builds its key differently)
+				}
+				upper, lower = subst(upper), subst(lower)
+				n++
+				why := ""
+				for i, want := range []string{"route", "children"} {
+					bb, f, ok := loadedField(c.Call.Args[1+i])
+					if !ok || f.Name() != want || !sameExpr(seeThrough(subst(bb)), seeThrough(lower)) {
+						why = want + " is not taken from the lower node " + valStr(lower)
+					}
+				}
+				if why == "" && !edgeZero(upper, lower) {
+					why = "the lower node " + valStr(lower) + " is not edge 0 of the upper node " + valStr(upper)
+				}
+				ru.Check(u.name, u.pos, "key = upper.key + lower.key; route and tables of lower; lower = edge 0 of upper", why == "", orDefault(why, "upper "+valStr(upper)+", lower "+valStr(lower)))
+			}
+		})
+	}
+	if n < 3 {
+		r.Unrecognised("C07.5: only %d merge constructions found in tXn.remove", n)
+	}
+}
+
+func paramIndex(fn *ssa.Function, p *ssa.Parameter) int {
+	for i, q := range fn.Params {
+		if q == p {
+			return i
+		}
+	}
+	return -1
 }
